@@ -26,7 +26,7 @@ fn def(prop: &str) -> Option<Def> {
     Some(match prop {
         "C02" => Def {
             prop: "C02",
-            profile: Weights { issue: 16, poll: 28, cancel: 4, dial_ok: 12, dial_fail: 1, hs_ok: 12, hs_fail: 1, release: 14, ready: 12, close: 3, takeover: 3, bg: 16, warm: 8, advance: 0, hold: 3, h2_pct: 12, alpn_pct: 5, origins: 2 },
+            profile: Weights { issue: 16, poll: 28, cancel: 4, dial_ok: 12, dial_fail: 1, hs_ok: 12, hs_fail: 1, release: 14, ready: 12, close: 3, takeover: 3, bg: 16, warm: 8, advance: 0, hold: 3, sleep: 0, h2_pct: 12, alpn_pct: 5, origins: 2 },
             plain_cfg: false,
             max_ops: (40, 120),
             cases: (240_000, 6_000_000),
@@ -36,7 +36,7 @@ fn def(prop: &str) -> Option<Def> {
         },
         "C03" => Def {
             prop: "C03",
-            profile: Weights { issue: 18, poll: 30, cancel: 9, dial_ok: 8, dial_fail: 7, hs_ok: 8, hs_fail: 5, release: 6, ready: 6, close: 2, takeover: 0, bg: 12, warm: 3, advance: 0, hold: 3, h2_pct: 75, alpn_pct: 5, origins: 1 },
+            profile: Weights { issue: 18, poll: 30, cancel: 9, dial_ok: 8, dial_fail: 7, hs_ok: 8, hs_fail: 5, release: 6, ready: 6, close: 2, takeover: 0, bg: 12, warm: 3, advance: 0, hold: 3, sleep: 0, h2_pct: 75, alpn_pct: 5, origins: 1 },
             plain_cfg: false,
             max_ops: (40, 120),
             cases: (240_000, 6_000_000),
@@ -46,7 +46,7 @@ fn def(prop: &str) -> Option<Def> {
         },
         "C04" => Def {
             prop: "C04",
-            profile: Weights { issue: 20, poll: 28, cancel: 7, dial_ok: 12, dial_fail: 1, hs_ok: 12, hs_fail: 1, release: 12, ready: 12, close: 2, takeover: 0, bg: 14, warm: 8, advance: 0, hold: 3, h2_pct: 50, alpn_pct: 8, origins: 2 },
+            profile: Weights { issue: 20, poll: 28, cancel: 7, dial_ok: 12, dial_fail: 1, hs_ok: 12, hs_fail: 1, release: 12, ready: 12, close: 2, takeover: 0, bg: 14, warm: 8, advance: 0, hold: 3, sleep: 0, h2_pct: 50, alpn_pct: 8, origins: 2 },
             plain_cfg: true,
             max_ops: (40, 120),
             cases: (240_000, 6_000_000),
@@ -56,17 +56,17 @@ fn def(prop: &str) -> Option<Def> {
         },
         "C05" => Def {
             prop: "C05",
-            profile: Weights { issue: 18, poll: 28, cancel: 4, dial_ok: 12, dial_fail: 1, hs_ok: 12, hs_fail: 1, release: 12, ready: 12, close: 9, takeover: 1, bg: 16, warm: 10, advance: 0, hold: 3, h2_pct: 30, alpn_pct: 5, origins: 2 },
+            profile: Weights { issue: 18, poll: 28, cancel: 4, dial_ok: 12, dial_fail: 1, hs_ok: 12, hs_fail: 1, release: 12, ready: 12, close: 9, takeover: 1, bg: 16, warm: 10, advance: 0, hold: 3, sleep: 0, h2_pct: 30, alpn_pct: 5, origins: 2 },
             plain_cfg: false,
             max_ops: (40, 120),
             cases: (240_000, 6_000_000),
             nontrivial: |c| has(c, "closed-while-pool-owned") && has(c, "issue-after-pooled-close"),
             rule: "history as for C02 with a close-heavy profile; non-trivial = a connection was closed by the peer while the pool or a hand-back task owned it and a later request for its origin was issued",
-            min_class: vec![("closed-while-pool-owned", 0.10)],
+            min_class: vec![("closed-while-pool-owned", 0.10), ("issue-with-only-expired-idle-connection", 0.0002)],
         },
         "C06" => Def {
             prop: "C06",
-            profile: Weights { issue: 20, poll: 30, cancel: 5, dial_ok: 12, dial_fail: 2, hs_ok: 12, hs_fail: 2, release: 12, ready: 12, close: 2, takeover: 0, bg: 14, warm: 10, advance: 0, hold: 3, h2_pct: 35, alpn_pct: 8, origins: 6 },
+            profile: Weights { issue: 20, poll: 30, cancel: 5, dial_ok: 12, dial_fail: 2, hs_ok: 12, hs_fail: 2, release: 12, ready: 12, close: 2, takeover: 0, bg: 14, warm: 10, advance: 0, hold: 3, sleep: 0, h2_pct: 35, alpn_pct: 8, origins: 6 },
             plain_cfg: false,
             max_ops: (48, 140),
             cases: (240_000, 6_000_000),
@@ -76,7 +76,7 @@ fn def(prop: &str) -> Option<Def> {
         },
         "C14" => Def {
             prop: "C14",
-            profile: Weights { issue: 16, poll: 30, cancel: 6, dial_ok: 5, dial_fail: 1, hs_ok: 6, hs_fail: 1, release: 14, ready: 14, close: 1, takeover: 0, bg: 18, warm: 6, advance: 0, hold: 3, h2_pct: 15, alpn_pct: 5, origins: 1 },
+            profile: Weights { issue: 16, poll: 30, cancel: 6, dial_ok: 5, dial_fail: 1, hs_ok: 6, hs_fail: 1, release: 14, ready: 14, close: 1, takeover: 0, bg: 18, warm: 6, advance: 0, hold: 3, sleep: 0, h2_pct: 15, alpn_pct: 5, origins: 1 },
             plain_cfg: true,
             max_ops: (40, 120),
             cases: (240_000, 6_000_000),
@@ -86,7 +86,7 @@ fn def(prop: &str) -> Option<Def> {
         },
         "C15" => Def {
             prop: "C15",
-            profile: Weights { issue: 22, poll: 30, cancel: 3, dial_ok: 14, dial_fail: 1, hs_ok: 14, hs_fail: 1, release: 16, ready: 16, close: 3, takeover: 0, bg: 16, warm: 10, advance: 0, hold: 3, h2_pct: 0, alpn_pct: 0, origins: 2 },
+            profile: Weights { issue: 22, poll: 30, cancel: 3, dial_ok: 14, dial_fail: 1, hs_ok: 14, hs_fail: 1, release: 16, ready: 16, close: 3, takeover: 0, bg: 16, warm: 10, advance: 0, hold: 3, sleep: 0, h2_pct: 0, alpn_pct: 0, origins: 2 },
             plain_cfg: false,
             max_ops: (48, 140),
             cases: (240_000, 6_000_000),
@@ -156,6 +156,12 @@ pub fn run(ctx: &Ctx) -> i32 {
         total.merge(run_generated(ctx, &engine, "generic", || case_strategy(GENERIC, max_ops, cfg_any_strategy()), generic, 2000));
     }
 
+    if d.prop == "C05" {
+        // idle expiry: real-time leg with 60 ms sleeps on both sides of a 25 ms idle timeout
+        let wt = Weights { issue: 10, poll: 20, cancel: 2, dial_ok: 8, dial_fail: 0, hs_ok: 8, hs_fail: 0, release: 8, ready: 8, close: 1, takeover: 0, bg: 10, warm: 14, advance: 0, hold: 2, sleep: 5, h2_pct: 15, alpn_pct: 0, origins: 2 };
+        let ectx = Ctx { threads: 16, ..ctx.clone() };
+        total.merge(run_generated(&ectx, &engine, "idle-expiry-real-time", move || case_strategy(wt, 24, cfg_expiry_strategy()), ctx.cases(600, 20_000), 200));
+    }
     finish(
         ctx,
         started,
